@@ -6,6 +6,7 @@ import (
 	"math/rand/v2"
 	"runtime"
 	"strings"
+	"sync"
 
 	"github.com/privacybydesign/gabi"
 	"github.com/privacybydesign/gabi/big"
@@ -120,6 +121,60 @@ func c05ExtremeRandomness(r *mon.Run, keys []string) {
 	r.FloorFam("extreme-randomness", 6)
 }
 
+// c05Concurrent: one key, many goroutines signing and verifying blocks with oversized (hashed) messages at the same time. Signing
+// and verifying are functions of their arguments; a valid signature must verify whatever else the process is doing.
+func c05Concurrent(r *mon.Run) {
+	k := world.Fixture("toy512a")
+	pk := k.PK
+	rng := r.Rand("concurrent")
+	G := 2 * runtime.NumCPU()
+	type item struct {
+		ms  []*big.Int
+		sig *gabi.CLSignature
+	}
+	items := make([]item, G)
+	for i := range items {
+		ms := []*big.Int{randBig(rng, 200), randBig(rng, 2000+rng.IntN(4000)), randBig(rng, 300+rng.IntN(3000))}
+		sig, err := gabi.SignMessageBlock(k.SK, pk, ms)
+		if err != nil || !refimpl.CLValid(pk, sig, ms) {
+			r.Inconclusive("set-up of the concurrent section failed")
+			return
+		}
+		items[i] = item{ms, sig}
+	}
+	rounds := r.Pick(40, 400)
+	var wg sync.WaitGroup
+	for g := 0; g < G; g++ {
+		wg.Add(1)
+		go func(g int) {
+			defer wg.Done()
+			for round := 0; round < rounds; round++ {
+				it := items[(g+round)%G]
+				var ok bool
+				pv, stack := mon.Try(func() { ok = it.sig.Verify(pk, it.ms) })
+				r.Eval("concurrent", outcome(ok, pv))
+				if pv != nil || !ok {
+					r.Violation("C05/valid-signature-rejected/concurrent", fmt.Sprintf("a valid signature over a block with oversized messages is rejected (panic=%v %s) while %d goroutines verify and sign", pv, mon.PanicSite(stack), G), map[string]any{"ms_bits": bitlens(it.ms)})
+					return
+				}
+				if round%8 == 0 {
+					var s2 *gabi.CLSignature
+					var err error
+					pv, stack := mon.Try(func() { s2, err = gabi.SignMessageBlock(k.SK, pk, it.ms) })
+					good := pv == nil && err == nil && s2 != nil && refimpl.CLValid(pk, s2, it.ms)
+					r.Eval("concurrent", outcome(good, pv))
+					if !good {
+						r.Violation("C05/issued-signature-invalid/concurrent", fmt.Sprintf("SignMessageBlock, called while %d goroutines sign and verify, fails or returns an invalid signature (panic=%v %s err=%v)", G, pv, mon.PanicSite(stack), err), map[string]any{"ms_bits": bitlens(it.ms)})
+						return
+					}
+				}
+			}
+		}(g)
+	}
+	wg.Wait()
+	r.FloorFam("concurrent", 500)
+}
+
 func runC05(r *mon.Run) {
 	keys := []string{"toy512a", "toy256a", "fix1024a"}
 	if r.Thorough() {
@@ -145,6 +200,7 @@ func runC05(r *mon.Run) {
 		}
 	}
 	c05ExtremeRandomness(r, keys)
+	c05Concurrent(r)
 	mon.Parallel(len(jobs), runtime.NumCPU(), func(ji int) {
 		j := jobs[ji]
 		c05Job(r, world.Fixture(j.key), j.n, rand.New(rand.NewPCG(j.seed, 5)))
@@ -236,7 +292,13 @@ func c05Job(r *mon.Run, k *world.Key, n int, jr *rand.Rand) {
 
 	// library signature + randomisation chain
 	msBefore := cloneInts(ms)
-	sig, err := gabi.SignMessageBlock(k.SK, pk, ms)
+	var sig *gabi.CLSignature
+	var err error
+	if pvs, stack := mon.Try(func() { sig, err = gabi.SignMessageBlock(k.SK, pk, ms) }); pvs != nil {
+		r.Eval("lib-signature", "panic")
+		r.Violation("C05/signing-panics", fmt.Sprintf("SignMessageBlock panicked: %v at %s (%d signing jobs run in parallel)", pvs, mon.PanicSite(stack), runtime.NumCPU()), map[string]any{"shape": shape, "ms": dumpInts(ms), "stack": stack})
+		return
+	}
 	for i := range ms {
 		if ms[i].Cmp(msBefore[i]) != 0 {
 			r.Violation("C05/message-block-modified-by-sign", fmt.Sprintf("SignMessageBlock changed message %d of the caller's block", i), map[string]any{"shape": shape})
